@@ -563,7 +563,7 @@ func genWellFormedCore(t *rapid.T, label string) WellFormed {
 	return w
 }
 
-func (w *WellFormed) canonical() string {
+func (w WellFormed) canonical() string {
 	s := ""
 	if w.HasEpoch {
 		s += w.EpochTxt + ":"
